@@ -1,6 +1,5 @@
-from math import factorial
-
 import numpy as np
+from scipy.special import eval_jacobi
 
 import lentil
 
@@ -104,12 +103,12 @@ def R(m, n, rho):
     if (n - m) & 1:  # odd
         return 0
     else:
-        R = np.zeros(rho.shape)
-        for k in range(int(n-m)//2 + 1):
-            Rk = ((-1) ** k * factorial(n-k) /
-                  (factorial(k) * factorial((n+m)//2-k) * factorial((n-m)//2-k)))
-            R += Rk * rho ** (n-2*k)
-        return R
+        # the radial polynomial is a Jacobi polynomial in 1 - 2*rho**2; this
+        # form stays accurate for every order, whereas summing the factorial
+        # series cancels catastrophically (1e-8 at n=26, O(1) from n=46)
+        s = (n-m)//2
+        rho = np.asarray(rho, dtype=float)
+        return (-1)**s * rho**m * eval_jacobi(s, m, 0, 1 - 2*rho**2)
 
 
 def zernike_compose(mask, coeffs, normalize=True, rho=None, theta=None):
